@@ -102,6 +102,7 @@ func corpusFields() []*modSpec {
 		mk("tags-opaque-with-json-name", "package models\n\ntype Payload struct{ A int }\n\ntype Event struct {\n\tID int `json:\"id\"`\n\tMeta Payload `json:\"meta_data\" gomacro-opaque:\"typescript\"`\n\tRaw Payload `gomacro-opaque:\"typescript\"`\n\tBoth Payload `json:\"both,omitempty\" gomacro-opaque:\"dart, typescript\"`\n\tComment string\n}\n\ntype Table struct {\n\tId int64\n\tData Event\n}\n"),
 		mk("tags-all-fields-ignored", "package models\n\ntype Empty struct{}\n\ntype Marker struct {\n\ta int\n\tB int `json:\"-\"`\n\tC string `gomacro:\"ignore\"`\n}\n\ntype T struct {\n\tFlags []Marker\n\tOne Marker\n\tE Empty\n\tN int\n}\n\ntype Table struct {\n\tId int64\n\tData T\n}\n"),
 		mk("tags-empty-struct-last", "package models\n\ntype Table struct {\n\tId int64\n\tData T\n}\n\ntype T struct {\n\tFlags []Marker\n\tOne Marker\n\tN int\n}\n\ntype Marker struct {\n}\n"),
+		mk("tags-embedded-unexported-struct", "package models\n\ntype audit struct {\n\tCreatedBy string `json:\"created_by\"`\n\tVersion int\n\tsecret int\n}\n\ntype Document struct {\n\taudit\n\tID int `json:\"id\"`\n\tTitle string\n\tLabel string `json:\"label,omitempty\"`\n}\n\ntype Table struct {\n\tId int64\n\tData Document\n}\n"),
 		mk("tags-opaque", "package models\n\ntype R struct{ Children []R }\n\ntype T struct {\n\tF1 R `gomacro-opaque:\"dart\"`\n\tF2 R `gomacro-opaque:\"dart, typescript\"`\n\tF3 R `gomacro-opaque:\" typescript\"`\n\tF4 int `json:\"f4\" gomacro-opaque:\"typescript\"`\n}\n\ntype Table struct {\n\tId int64\n\tData T\n}\n"),
 		mk("tags-invalid-name", "package models\n\ntype T struct {\n\tA int `json:\"a\\\\b\"`\n\tB int `json:\"ok\"`\n}\n"),
 	}
@@ -166,7 +167,7 @@ func sameNamePackages() *modSpec {
 		return &modSpec{Name: name, ModPath: "example.com/org/models", Target: "models.go",
 			Files: append([]modFile{{"models.go", src}}, extra...)}
 	}
-	return mk("two-packages-with-one-name", "package models\n\nimport (\n\tapimodels \"example.com/org/models/api/models\"\n\tdbmodels \"example.com/org/models/db/models\"\n)\n\ntype Holder struct {\n\tShape apimodels.Shape\n\tLevel apimodels.Level\n\tPaint dbmodels.Paint\n\tState dbmodels.State\n}\n",
-		modFile{"api/models/models.go", "package models\n\nimport dbmodels \"example.com/org/models/db/models\"\n\ntype Shape interface{ isShape() }\ntype Circle struct{ R int }\ntype Square struct {\n\tS int\n\tP dbmodels.Paint\n}\n\nfunc (Circle) isShape() {}\nfunc (Square) isShape() {}\n\ntype Level int\n\nconst (\n\tLow Level = iota\n\tHigh\n)\n"},
-		modFile{"db/models/models.go", "package models\n\ntype Paint interface{ isPaint() }\ntype Oil struct{ V int }\ntype Water struct{ W string }\n\nfunc (Oil) isPaint() {}\nfunc (Water) isPaint() {}\n\ntype State string\n\nconst (\n\tOn State = \"on\"\n\tOff State = \"off\"\n)\n"})
+	return mk("two-packages-with-one-name", "package models\n\nimport (\n\tapimodels \"example.com/org/models/api/models\"\n\tdbmodels \"example.com/org/models/db/models\"\n)\n\ntype Holder struct {\n\tShape apimodels.Shape\n\tLevel apimodels.Level\n\tPaint dbmodels.Paint\n\tState dbmodels.State\n\tRef apimodels.Ref\n}\n",
+		modFile{"api/models/models.go", "package models\n\nimport dbmodels \"example.com/org/models/db/models\"\n\ntype Shape interface{ isShape() }\ntype Circle struct{ R int }\ntype Square struct {\n\tS int\n\tP dbmodels.Paint\n}\n\nfunc (Circle) isShape() {}\nfunc (Square) isShape() {}\n\ntype Level int\n\nconst (\n\tLow Level = iota\n\tHigh\n)\n\n// a constant of a type of the other package named models\nconst NoID dbmodels.ID = -1\n\ntype Ref struct{ Of dbmodels.ID }\n"},
+		modFile{"db/models/models.go", "package models\n\ntype Paint interface{ isPaint() }\ntype Oil struct{ V int }\ntype Water struct{ W string }\n\nfunc (Oil) isPaint() {}\nfunc (Water) isPaint() {}\n\ntype State string\n\nconst (\n\tOn State = \"on\"\n\tOff State = \"off\"\n)\n\n// no constant of ID is declared here\ntype ID int64\n"})
 }
